@@ -59,11 +59,11 @@ func PathFor(in interface{}) (string, error) {
 	k := to.Kind()
 	switch k {
 	case reflect.Struct:
-		f := rv.FieldByName("Slug")
+		f := fieldByName(rv, "Slug")
 		if f.IsValid() {
 			return byField(ni, f)
 		}
-		f = rv.FieldByName("ID")
+		f = fieldByName(rv, "ID")
 		if f.IsValid() {
 			return byField(ni, f)
 		}
@@ -85,6 +85,20 @@ func PathFor(in interface{}) (string, error) {
 	}
 
 	return "", fmt.Errorf("could not convert %T to path", in)
+}
+
+// fieldByName is reflect's FieldByName without the panic on a field that is
+// promoted through a nil embedded pointer (such a field counts as absent).
+func fieldByName(rv reflect.Value, name string) reflect.Value {
+	sf, ok := rv.Type().FieldByName(name)
+	if !ok {
+		return reflect.Value{}
+	}
+	f, err := rv.FieldByIndexErr(sf.Index)
+	if err != nil {
+		return reflect.Value{}
+	}
+	return f
 }
 
 func byField(ni name.Ident, f reflect.Value) (string, error) {
